@@ -152,6 +152,18 @@ func runRSCase(c *Ctx, rc rsCase, tape *simrt.Tape) (vs []rsV, evals int) {
 		add("reader-open-error|"+normErr(err), err.Error())
 		return
 	}
+	if rc.Table.Seed%4 == 1 {
+		// an unrelated sequential reader of the same process is opened, used and closed twice before the concurrent
+		// phase (the second Close reports "already closed"): whatever it hands back to shared pools must not come
+		// back twice
+		if sr, e := recordio.NewFileReader(recordio.ReaderPath(filepath.Join(dir, sstables.IndexFileName))); e == nil {
+			if sr.Open() == nil {
+				_, _ = sr.ReadNext()
+				_ = sr.Close()
+				_ = sr.Close()
+			}
+		}
+	}
 	fileSize := 0
 	if fi, e := os.Stat(filepath.Join(dir, sstables.DataFileName)); e == nil {
 		fileSize = int(fi.Size())
